@@ -220,6 +220,81 @@ theorem rowApply_weight (W : Nat → Rat) (l : List HF) (f : Nat) (p : Nat → R
     · rw [if_pos hc, List.filter_cons_of_pos (by simpa using hc), hc]; simp; ring
     · rw [if_neg hc, List.filter_cons_of_neg (by simpa using hc)]; simp
 
+/-! ### vector source -/
+
+theorem rowApply_append (l1 l2 : List Trip) (f : Nat) (v : Nat → Rat) :
+    rowApply (l1 ++ l2) f v = rowApply l1 f v + rowApply l2 f v := by
+  induction l1 with
+  | nil => simp [rowApply]
+  | cons t l ih =>
+    obtain ⟨a, b, w⟩ := t
+    simp only [List.cons_append, rowApply, ih]; ring
+
+theorem rowApply_range (n a : Nat) (b : Nat → Nat) (w : Nat → Rat) (f : Nat) (v : Nat → Rat) :
+    rowApply ((List.range n).map (fun k => (a, b k, w k))) f v
+      = if a = f then sumTo n (fun k => w k * v (b k)) else 0 := by
+  induction n with
+  | zero => simp [rowApply, sumTo]
+  | succ n ih =>
+    rw [List.range_succ, List.map_append, rowApply_append, ih]
+    simp only [List.map_cons, List.map_nil, rowApply, sumTo]
+    split_ifs <;> ring
+
+theorem vsVec_at (vsd : Nat) (G : V3) (c k : Nat) (hk : k < vsd) : vsVec vsd G (c * vsd + k) = G.get k := by
+  unfold vsVec
+  rw [Nat.mul_comm, Nat.mul_add_mod, Nat.mod_eq_of_lt hk]
+
+/-- `Σ_{k<vsd} d_k G_k` is the full dot product when the components beyond `vsd` do not contribute -/
+theorem sumTo_dot (vsd : Nat) (d G : V3) (h1 : 1 ≤ vsd) (h3 : vsd ≤ 3)
+    (hz : ∀ k, vsd ≤ k → k < 3 → d.get k * G.get k = 0) :
+    sumTo vsd (fun k => d.get k * G.get k) = d.dot G := by
+  have e3 : sumTo 3 (fun k => d.get k * G.get k) = d.dot G := by
+    simp only [sumTo, V3.get, V3.dot]; ring
+  rcases (by omega : vsd = 1 ∨ vsd = 2 ∨ vsd = 3) with rfl | rfl | rfl
+  · have a1 := hz 1 (by omega) (by omega)
+    have a2 := hz 2 (by omega) (by omega)
+    rw [← e3]; simp only [sumTo, a1, a2]; ring
+  · have a2 := hz 2 (by omega) (by omega)
+    rw [← e3]; simp only [sumTo, a2]; ring
+  · exact e3
+
+theorem vecSrc_rowApply (vsd : Nat) (W : HF → Nat → Rat) (l : List HF) (f : Nat) (v : Nat → Rat) :
+    rowApply (l.flatMap (fun h => (List.range vsd).map (fun k => (h.face, h.cell * vsd + k, W h k)))) f v
+      = ((l.filter (fun h => h.face == f)).map
+          (fun h => sumTo vsd (fun k => W h k * v (h.cell * vsd + k)))).sum := by
+  induction l with
+  | nil => simp [rowApply]
+  | cons h l ih =>
+    rw [List.flatMap_cons, rowApply_append, ih, rowApply_range]
+    by_cases hc : h.face = f
+    · rw [if_pos hc, List.filter_cons_of_pos (by simpa using hc)]; simp
+    · rw [if_neg hc, List.filter_cons_of_neg (by simpa using hc)]; simp
+
+
+theorem vecSrc_inner (g : Grid) (vsd : Nat) (G : V3) (h : HF) (T : Rat) (h1 : 1 ≤ vsd) (h3 : vsd ≤ 3)
+    (hz : ∀ k, vsd ≤ k → k < 3 → (dvec g h).get k * G.get k = 0) :
+    sumTo vsd (fun k => (T * (dvec g h).get k * h.sgn) * vsVec vsd G (h.cell * vsd + k))
+      = T * (h.sgn * (dvec g h).dot G) := by
+  rw [← sumTo_dot vsd (dvec g h) G h1 h3 hz, ← sumTo_mul_left, ← sumTo_mul_left]
+  apply sumTo_congr
+  intro k hk
+  rw [vsVec_at vsd G h.cell k hk]; ring
+
+/-- hydrostatic bookkeeping on the half-faces of one face -/
+theorem hydro_sum (g : Grid) (f : Nat) (a : Rat) (G : V3) (p : Nat → Rat)
+    (hp : ∀ c, p c = a + G.dot (g.cc c)) (l : List HF) (hl : ∀ h ∈ l, h.face = f) :
+    sgnDot l p + (l.map (fun h => h.sgn * (dvec g h).dot G)).sum = (a + G.dot (g.fc f)) * sgnSum l := by
+  induction l with
+  | nil => simp [sgnDot, sgnSum]
+  | cons h l ih =>
+    have ih' := ih (fun x hx => hl x (by simp [hx]))
+    have hf : h.face = f := hl h (by simp)
+    simp only [sgnDot, sgnSum, List.map_cons, List.sum_cons]
+    have : (dvec g h).dot G = G.dot (g.fc f) - G.dot (g.cc h.cell) := by
+      unfold dvec; rw [hf, dot_sub_left, dot_comm (g.cc h.cell) G, dot_comm (g.fc f) G]
+    rw [this, hp h.cell]
+    linear_combination ih'
+
 /-! ### conservation bookkeeping -/
 
 def tot : List HF → (Nat → Rat) → Rat
